@@ -1,7 +1,12 @@
 ----------------------------- MODULE MainLoopOps -----------------------------
 (* C12: MainLoop input ordering, redraw-before-wait, exception outcome and terminal         *)
 (* restoration, as a monitor over the events of one run() session.                          *)
-(*   arrived   inputs read from the terminal and not yet given to the input filter           *)
+(*   arrived   input events that have come into being at the terminal and have not yet been  *)
+(*             given to the input filter.  An input whose bytes reach the screen in two      *)
+(*             reads (event "partial" at the first chunk) arrives with its last byte         *)
+(*   held      a lone ESC that has been typed: it begins every escape sequence, so the       *)
+(*             screen may keep it back, but for no longer than holdmax (its complete_wait):  *)
+(*             while it is held the loop never sleeps longer than that                       *)
 (*   resize    a window resize is pending delivery                                           *)
 (*   todo      inputs the filter returned that the topmost widget has not been offered yet   *)
 (*   owe       the input the widget just declined: must go to the unhandled-input handler    *)
@@ -11,7 +16,7 @@
 (*   term      the terminal (Terminal.tla) interpreting every byte written                   *)
 EXTENDS Terminal, Sequences
 
-InitM(w, h) == [arrived |-> <<>>, resize |-> FALSE, todo |-> <<>>, owe |-> <<>>, gen |-> 0, drawn |-> -1,
+InitM(w, h) == [arrived |-> <<>>, held |-> <<>>, holdmax |-> 0, resize |-> FALSE, todo |-> <<>>, owe |-> <<>>, gen |-> 0, drawn |-> -1,
                 raised |-> {}, term |-> NewTerm(w, h), started |-> FALSE, top |-> 1]      \* top: the widget the application last made topmost
 
 RM(m, w) == [m |-> m, why |-> w]
@@ -47,11 +52,14 @@ Restored(m, e) ==
 JudgeM(m, e) ==
   CASE e.t = "arrive" -> RM([m EXCEPT !.arrived = @ \o e.keys], "-")
     [] e.t = "arrive_resize" -> RM([m EXCEPT !.resize = TRUE], "-")
+    [] e.t = "partial" -> RM(m, "-")      \* the first bytes of an input were written to the terminal: no input event yet
+    [] e.t = "arrive_held" -> RM([m EXCEPT !.held = e.keys, !.holdmax = e.wait], "-")
     [] e.t = "filter" ->     \* input_filter(keys): everything that arrived, in arrival order, exactly once
          LET keys == NoResize(e.keys)
-             m2 == [m EXCEPT !.arrived = <<>>, !.resize = FALSE, !.todo = NoResize(e.out)]
+             releases == m.held # <<>> /\ keys = m.arrived \o m.held       \* the screen stops waiting: the held ESC is passed on too
+             m2 == [m EXCEPT !.arrived = <<>>, !.resize = FALSE, !.todo = NoResize(e.out), !.held = IF releases THEN <<>> ELSE @]
          IN IF m.todo # <<>> \/ m.owe # <<>> THEN RM(m2, "previous_input_fully_dispatched_first")
-            ELSE IF keys # m.arrived THEN RM(m2, "inputs_to_filter_in_arrival_order")
+            ELSE IF keys # m.arrived /\ ~releases THEN RM(m2, "inputs_to_filter_in_arrival_order")
             ELSE IF Len(keys) # Len(e.keys) /\ ~m.resize THEN RM(m2, "spurious_window_resize")
             ELSE RM(m2, "-")
     [] e.t \in {"keypress", "mouse_event"} ->    \* the topmost widget is offered the next filtered input
@@ -72,7 +80,9 @@ JudgeM(m, e) ==
     [] e.t = "raise" -> RM([m EXCEPT !.raised = @ \cup {e.kind}, !.owe = <<>>, !.todo = <<>>], "-")
     [] e.t = "wait" ->
          LET blocks == e.ready = <<>> /\ e.timeout # 0 /\ (e.timeout = -1 \/ e.timeout > e.grace)
-         IN IF blocks /\ m.raised = {} /\ m.owe # <<>> THEN RM(m, "unhandled_exactly_when_widget_declined")
+         IN IF blocks /\ m.raised = {} /\ m.arrived # <<>> THEN RM(m, "each_input_event_is_passed")     \* the loop sleeps on input it never delivered
+            ELSE IF blocks /\ m.raised = {} /\ m.held # <<>> /\ (e.timeout = -1 \/ e.timeout > m.holdmax) THEN RM(m, "each_input_event_is_passed")
+            ELSE IF blocks /\ m.raised = {} /\ m.owe # <<>> THEN RM(m, "unhandled_exactly_when_widget_declined")
             ELSE IF blocks /\ m.raised = {} /\ m.todo # <<>> THEN RM(m, "widget_gets_filtered_input_in_order")
             ELSE IF blocks /\ m.raised = {} /\ m.drawn # m.gen THEN RM(m, "redrawn_before_next_wait")
             ELSE RM(m, "-")
